@@ -12,6 +12,7 @@ EXTENDS FeedsPrice
 CONSTANTS MaxH, MaxN, PPowerSet, PTsSet, PPriceSet
 VARIABLE infos
 mvars == <<vars, infos>>
+ToffM == {-2, 0, 1}   \* cfg files cannot write negative numbers: ToffSet <- ToffM
 
 -----------------------------------------------------------------------------
 (* pure facet *)
@@ -35,85 +36,44 @@ PureNext == /\ Len(infos) < MaxN
             /\ \E e \in Entries : infos' = Append(infos, e)
             /\ UNCHANGED vars
 
-AvailIdx(s)    == {i \in 1..Len(s) : s[i].st = "avail"}
-AvailPrices(s) == {s[i].price : i \in AvailIdx(s)}
-ScalePw(s, k)  == [i \in 1..Len(s) |-> [s[i] EXCEPT !.pw = @ * k]]
-Permute(s, p)  == [i \in 1..Len(s) |-> s[p[i]]]
-
-\* the result is one of the available input prices (hence within [min, max]); error iff there is none
-PureRange ==
-    LET m == Median(infos)  ps == AvailPrices(infos) IN
-    /\ m.ok <=> ps # {}
-    /\ m.ok => /\ m.price \in ps
-               /\ \A q \in ps : (\A r \in ps : q <= r) => q <= m.price
-               /\ \A q \in ps : (\A r \in ps : q >= r) => q >= m.price
-
-\* the whole rule is homogeneous in the powers (no division anywhere): scaling changes nothing
-PureScale ==
-    \A k \in {2, 3, 7, 1000} :
-        /\ Median(ScalePw(infos, k)) = Median(infos)
-        /\ \A q \in 0..(SumPw(infos) + 1) : CalcPrice(ScalePw(infos, k), q * k) = CalcPrice(infos, q)
-
-\* the order of the entries matters only between available entries with the same (timestamp, power)
-TieFree(s) == \A i, j \in AvailIdx(s) : (i # j /\ s[i].ts = s[j].ts /\ s[i].pw = s[j].pw) => s[i].price = s[j].price
-PureOrder ==
-    \A p \in Perms(1..Len(infos)) :
-        /\ Powers(Permute(infos, p)) = Powers(infos)
-        /\ TieFree(infos) => Median(Permute(infos, p)) = Median(infos)
-
-\* AVAILABLE / UNKNOWN_SIGNAL_ID / NOT_READY exactly by the rule; the error return needs quorum 0 and no input
-PureStatus ==
-    LET P == Powers(infos) IN
-    \A q \in 0..(P.total + 1) :
-        LET r == CalcPrice(infos, q) IN
-        /\ (r.status = "UNKNOWN_SIGNAL_ID") <=> (2 * P.unsupp > P.total)
-        /\ (r.status \in {"AVAILABLE", "ERROR"}) <=> (P.total >= q /\ 2 * P.avail >= P.total /\ ~(2 * P.unsupp > P.total))
-        /\ (r.status = "ERROR") <=> (infos = <<>> /\ q = 0)
-        /\ (r.status \notin {"UNKNOWN_SIGNAL_ID", "AVAILABLE", "ERROR"}) <=> (r.status = "NOT_READY")
-        /\ (r.status = "AVAILABLE") => (Median(infos).ok /\ r.price = Median(infos).price)
-        /\ (r.status # "AVAILABLE") => r.price = 0
-        /\ P.total = P.avail + P.unavail + P.unsupp
-
-\* independent (declarative) reading of the two loops, must agree with the transcription:
-\*  - the k-th sorted entry occupies [32*prefix(k-1), 32*prefix(k)) of the scaled power line; its weight is the
-\*    multiplier-weighted overlap with the sections [0,1T) [1T,3T) [3T,7T) [7T,15T) [15T,32T);
-\*  - the median is the least price P with 2 * (weight of prices <= P) >= total weight.
-Min2(a, b) == IF a <= b THEN a ELSE b
-Overlap(a, b, lo, hi) == Max2(0, Min2(b, hi) - Max2(a, lo))
-Lim(total) == <<0, total * 1, total * 3, total * 7, total * 15, total * 32>>
-AltWeight(a, b, total) ==
-    LET L == Lim(total) IN
-    Mult[1] * Overlap(a, b, L[1], L[2]) + Mult[2] * Overlap(a, b, L[2], L[3]) + Mult[3] * Overlap(a, b, L[3], L[4])
-  + Mult[4] * Overlap(a, b, L[4], L[5]) + Mult[5] * Overlap(a, b, L[5], L[6])
-RECURSIVE Prefix(_, _)
-Prefix(s, k) == IF k = 0 THEN 0 ELSE s[k].pw + Prefix(s, k - 1)
-AltWeights(s) ==
-    LET valid  == OnlySt(s, "avail")
-        total  == SumPw(valid)
-        sorted == StableSort(valid, NewerBigger)
-    IN [k \in 1..Len(sorted) |-> [w |-> AltWeight(Scale * Prefix(sorted, k - 1), Scale * Prefix(sorted, k), total),
-                                  price |-> sorted[k].price]]
-RECURSIVE SumWUpTo(_, _, _)
-SumWUpTo(wps, k, P) == IF k = 0 THEN 0 ELSE (IF wps[k].price <= P THEN wps[k].w ELSE 0) + SumWUpTo(wps, k - 1, P)
-AltMedian(wps) ==
-    LET W  == SumW(wps)
-        ok == {wps[i].price : i \in {j \in 1..Len(wps) : 2 * SumWUpTo(wps, Len(wps), wps[j].price) >= W}}
-    IN IF ok = {} THEN [ok |-> FALSE, price |-> 0]
-       ELSE [ok |-> TRUE, price |-> CHOOSE p \in ok : \A q \in ok : p <= q]
-PureAlt ==
-    LET wps == WeightedPrices(infos) IN
-    /\ wps = AltWeights(infos)
-    /\ Median(infos) = AltMedian(wps)
-    /\ SumW(wps) = 478 * Powers(infos).avail       \* 1*60 + 2*40 + 4*20 + 8*11 + 17*10: no power lost or counted twice
-    /\ \A i \in 1..Len(wps) : wps[i].w >= 0
-
-PureInv == PureRange /\ PureScale /\ PureOrder /\ PureStatus /\ PureAlt
+PureRange  == PureRangeOf(infos)
+PureScale  == PureScaleOf(infos)
+PureOrder  == PureOrderOf(infos)
+PureStatus == PureStatusOf(infos)
+PureAlt    == PureAltOf(infos)
 
 -----------------------------------------------------------------------------
 (* system facets *)
 
 MCInit == InitSys /\ infos = <<>>
+\* quick price facet: at most one validator starts oracle-inactive
+PriceInit == MCInit /\ Cardinality({v \in Val : ~vstat[v].active}) <= 1
 MCNext == Next /\ UNCHANGED infos
+
+\* timing facets: one canonical iteration order (the validators are interchangeable there), well-formed
+\* one-price submissions, no jailing; the feed list changes only when UpdSet makes h a multiple of params.upd
+CanonOrder == CHOOSE o \in Perms(InPowerIndex) : TRUE
+FullMsg    == [s \in Cur |-> [st |-> "avail", price |-> 1]]
+MissNext ==
+    /\ \/ \E a \in Addr : Cur # {} /\ Submit(a, 0, FullMsg, "wf")
+       \/ \E a \in Addr : Activate(a)
+       \/ \E dt \in DtSet, nf \in [Sig -> IntervalSet \cup {0}] :
+              /\ (h % params.upd # 0 => nf = feeds)
+              /\ EndBlock(dt, nf, CanonOrder)
+    /\ UNCHANGED infos
+
+\* iteration orders tried by the price facets: one order and its reverse (the order matters only between validators with
+\* equal tokens and equal timestamps), or all of them
+CONSTANT AllOrders
+Reverse(q) == [i \in 1..Len(q) |-> q[Len(q) + 1 - i]]
+OrderSet == IF AllOrders THEN Perms(InPowerIndex) ELSE {CanonOrder, Reverse(CanonOrder)}
+
+\* price facets: every validator submits any full message (all statuses), any may be jailed
+PriceNext ==
+    /\ \/ \E a \in Val, m \in [Cur -> StPrice] : Cur # {} /\ Submit(a, 0, m, "wf")
+       \/ \E v \in Val : Jail(v)
+       \/ \E dt \in DtSet, ord \in OrderSet : EndBlock(dt, feeds, ord)
+    /\ UNCHANGED infos
 
 \* facet with every validator active since before the start and an arbitrary stored price each
 Sym   == Permutations(Val)
